@@ -111,6 +111,7 @@ type Channel struct {
 	done       chan struct{}
 	closeOnce  sync.Once
 	readerDone chan struct{}
+	closed     atomic.Bool
 
 	Q              *util.Queue
 	Errs           chan error
@@ -122,6 +123,17 @@ type Channel struct {
 // Open opens the underlying Transport and begins the `read` goroutine, this also kicks off any
 // in channel authentication (if necessary).
 func (c *Channel) Open() (reterr error) {
+	if c.closed.Load() {
+		// opening again after a Close: the shutdown signals of the previous session are used up, start
+		// over with fresh ones (and without whatever that session left unread)
+		c.done = make(chan struct{})
+		c.readerDone = make(chan struct{})
+		c.closeOnce = sync.Once{}
+		c.readLoopExited.Store(false)
+		c.Q.DequeueAll()
+		c.closed.Store(false)
+	}
+
 	err := c.t.Open()
 	if err != nil {
 		c.l.Criticalf("error opening channel, error: %s", err)
@@ -204,6 +216,7 @@ func (c *Channel) close() error {
 	// send once it sees the done signal instead. closing done (rather than sending on it) means
 	// nobody has to wait for a read loop that already exited or that is stuck in a blocking read.
 	close(c.done)
+	c.closed.Store(true)
 
 	verifYield("C_wait")
 
